@@ -27,8 +27,8 @@ import time
 import traceback
 
 VERIF = os.path.dirname(os.path.dirname(os.path.abspath(__file__)))
-EVIDENCE_DIR = os.path.join(VERIF, 'evidence')
-REPLAY_DIR = os.path.join(VERIF, 'replays')
+EVIDENCE_DIR = os.environ.get('VERIF_EVIDENCE_DIR') or os.path.join(VERIF, 'evidence')
+REPLAY_DIR = os.path.join(VERIF, 'replays') if not os.environ.get('VERIF_EVIDENCE_DIR') else os.path.join(os.environ['VERIF_EVIDENCE_DIR'], 'replays')
 KNOWN_FILE = os.path.join(VERIF, 'known_findings.json')
 
 
